@@ -215,6 +215,9 @@ func shrinkCandidates(s *Scenario) []*Scenario {
 				}
 				for k := len(tk.W) - 1; k >= 0; k-- {
 					k := k
+					if tk.W[k].Kind == "barrier" || (tk.W[k].Kind == "ctl" && tk.W[k].MT == 8 && k == len(tk.W)-1) {
+						continue // protocol ops of the scenario class
+					}
 					add(func(c *Scenario) bool {
 						w := (*get(c))[ti].W
 						(*get(c))[ti].W = append(w[:k:k], w[k+1:]...)
